@@ -178,7 +178,8 @@ def gen(rng, tier, i):
     for c in range(nclients):
         p.cycle(connect(0, c))
     p.idle(1)
-    p.cycle(*[send(c, stream, segsets[c]) for c in range(nclients)])
+    # (some of the reads are interrupted before they copy a byte: EINTR is no end of the connection and no byte is lost)
+    p.cycle(*(['recvintr %d %d' % (c, rng.randint(1, 3)) for c in range(nclients) if rng.random() < 0.15] + [send(c, stream, segsets[c]) for c in range(nclients)]))
     need = max(len(s) for s in segsets) + len(stream) // 3 + 20
     need = min(need, 4000)
     k = 0
